@@ -144,10 +144,10 @@ theorem act_handleAckTimer (h : Act s) (b : Bool) : Act (handleAckTimer s now b)
   simp only [handleAckTimer]
   repeat' split
   all_goals act_go [act_abandon, act_handleFault, act_shutdown]
-theorem act_handleTimeout (h : Act s) : Act (handleTimeout s now) := by
+theorem act_handleTimeoutMain (h : Act s) : Act (handleTimeoutMain s now) := by
   have h1 : Act (handleInactivity (handleDelayed s now) now).1 :=
     act_handleInactivity (act_frame h (state_handleDelayed _ _) (timer_handleDelayed _ _))
-  simp only [handleTimeout]
+  simp only [handleTimeoutMain]
   generalize (handleInactivity (handleDelayed s now) now) = r at h1
   repeat' split
   all_goals first
@@ -155,6 +155,12 @@ theorem act_handleTimeout (h : Act s) : Act (handleTimeout s now) := by
     | exact h1
     | (apply act_handleAckTimer; act_go [])
     | act_go []
+
+
+theorem act_handleTimeout (h : Act s) : Act (handleTimeout s now) := by
+  simp only [handleTimeout, unackFinishedLimit]
+  repeat' split
+  all_goals act_go [act_shutdown, act_handleTimeoutMain]
 
 end Cfdp.Recv
 
